@@ -133,6 +133,7 @@ func (s *Store) ReadCommand(req *pb.RaftCmdRequest) (*pb.RaftCmdResponse, error)
 	if err := peer.WaitApplied(ctx, index); err != nil {
 		return nil, err
 	}
+	verifObserveRead(s, req, index)
 	out, err := s.commandApplier(req)
 	if err != nil {
 		return nil, err
